@@ -65,6 +65,7 @@ class VCResult:
         self.infeasible = 0
         self.validated = 0
         self.validation_failures = []
+        self.second = {}
 
 
 def snapshot_storage(storage):
@@ -86,6 +87,24 @@ def run_entry(I, ctx, fn, args, pre_storage=None):
     except Panic as e:
         ctx.storage = snapshot_storage(pre)
         return "panic", str(e)
+
+
+def second_opinion(ctx, prop, z3_verdict, timeout_s=8):
+    """re-discharge one obligation with cvc5 from an SMT-LIB2 dump; returns 'agree' | 'disagree' | 'no-answer'"""
+    import subprocess, tempfile, os
+    s = z3.Solver()
+    s.add(*ctx.pc); s.add(z3.Not(prop))
+    smt = "(set-logic ALL)\n" + s.to_smt2()
+    try:
+        r = subprocess.run(["cvc5", "--lang", "smt2", f"--tlimit={timeout_s * 1000}"], input=smt.encode(), stdout=subprocess.PIPE, stderr=subprocess.PIPE, timeout=timeout_s + 10)
+        out = r.stdout.decode().strip().splitlines()
+        err = r.stderr.decode()
+    except subprocess.TimeoutExpired:
+        return "no-answer"
+    if "(error" in "\n".join(out) or "(error" in err: return "no-answer"
+    ans = out[0].strip() if out else ""
+    if ans not in ("sat", "unsat"): return "no-answer"
+    return "agree" if ans == z3_verdict else "disagree"
 
 
 def discharge(ctx, prop, timeout_ms):
@@ -140,7 +159,7 @@ def validate_path(I, vc, ctx, ob):
     return {"ok": r.get("reproduced"), "diffs": r.get("diffs"), "request": r.get("request"), "native": r.get("native"), "predicted_outcome": r.get("predicted_outcome")}
 
 
-def run_vc(prog, models, vc, bounds=None, path_limit=20000, query_timeout_ms=20000, time_limit=None, stop_on_first=False, validate=0):
+def run_vc(prog, models, vc, bounds=None, path_limit=20000, query_timeout_ms=20000, time_limit=None, stop_on_first=False, validate=0, second_solver=False):
     I = Interp(prog, models)
     res = VCResult(vc.name)
     stats = Stats()
@@ -182,6 +201,11 @@ def run_vc(prog, models, vc, bounds=None, path_limit=20000, query_timeout_ms=200
             res.obligation_names.add(name)
             r, m = discharge(ctx, prop, query_timeout_ms)
             res.queries[r] += 1
+            if second_solver and r in ("sat", "unsat") and not isinstance(prop, bool):
+                so = second_opinion(ctx, prop, r)
+                res.second[so] = res.second.get(so, 0) + 1
+                if so == "disagree":
+                    res.unsupported.append((f"z3 says {r} but cvc5 disagrees on {name}", list(ctx.taken), list(ctx.labels)))
             if r == "sat":
                 res.violations.append(Violation(vc, name, list(ctx.taken), list(ctx.labels), m, ctx, info))
             elif r == "unknown":
